@@ -16,7 +16,7 @@ func smallFamily(c *Ctx, nSample int) []*family.Grammar {
 }
 
 func init() {
-	checks["C12"] = func(c *Ctx) error {
+	gramSpecs["C12"] = func(c *Ctx) ([]*family.Grammar, *GramSpec) {
 		N, nS := 3, 40
 		sizes := []int{-1, 1, 64}
 		if !c.Quick() {
@@ -25,7 +25,7 @@ func init() {
 		stdBounds(c, N)
 		c.Bounds["histories"] = "two inputs per instance (all pairs of lengths 0..3), the same input twice, and (thorough) three inputs of length <= 2; Size in {unset, 1, 64}; U in {uint16, uint32, uint64, uint} x Size in {unset, 0, 1, 64}"
 		c.Bounds["outside"] = "histories longer than 3 inputs; inputs that do not fit U (excluded by the property); inputs longer than 3 runes in histories"
-		return runGrammarProperty(c, smallFamily(c, nS), &GramSpec{
+		return smallFamily(c, nS), &GramSpec{
 			Variants: []string{"d"},
 			Entries: func(gg *GenGrammar) []EntrySpec {
 				return []EntrySpec{
@@ -63,9 +63,9 @@ func init() {
 				return jobs
 			},
 			BrokenIsViolation: true, ValidateEveryGrammar: validateEvery(c), Cfg: parserCfg(c),
-		})
+		}
 	}
-	checks["C14"] = func(c *Ctx) error {
+	gramSpecs["C14"] = func(c *Ctx) ([]*family.Grammar, *GramSpec) {
 		N, nS := 3, 30
 		if !c.Quick() {
 			nS = 200
@@ -87,7 +87,7 @@ func init() {
 		}
 		c.Bounds["interleavings"] = fmt.Sprintf("%d merges of two 3-call sequences (init, parse, execute+print/error) of two instances; same parser type and two different parser packages; input lengths (2,3),(3,2),(3,3)", len(orders))
 		c.Bounds["outside"] = "this is a non-interference argument (disjoint write footprints => every schedule is equivalent to a sequential one), not scheduler exploration; Go runtime, fmt internals and os.Stdout are outside"
-		return runGrammarProperty(c, smallFamily(c, nS), &GramSpec{
+		return smallFamily(c, nS), &GramSpec{
 			Variants: []string{"d", "i"},
 			Entries: func(gg *GenGrammar) []EntrySpec {
 				es := []EntrySpec{{Name: "C14same", Params: "n1, n2, order int", Body: "hl.C14(G, vd.New, vd.New, HASACT, n1, n2, order, NSW)"}}
@@ -109,6 +109,6 @@ func init() {
 				return jobs
 			},
 			BrokenIsViolation: false, ValidateEveryGrammar: validateEvery(c), Cfg: parserCfg(c),
-		})
+		}
 	}
 }
